@@ -876,8 +876,12 @@ class ExprMixin(ExecBase):
 
     def ev_ListComp(self, e, st):
         gens = e.generators
-        if self.spec or len(gens) not in (1, 2) or any(g.ifs or g.is_async or not isinstance(g.target, ast.Name) for g in gens):
+        if self.spec or len(gens) not in (1, 2) or any(g.is_async or not isinstance(g.target, ast.Name) for g in gens) \
+                or any(g.ifs for g in gens[:-1]):
             raise Unsupported("comprehension shape (line %s)" % getattr(e, "lineno", "?"))
+        filters = gens[-1].ifs
+        if any(isinstance(x, (ast.Call, ast.Await, ast.NamedExpr, ast.Yield, ast.Lambda)) for f in filters for x in ast.walk(f)):
+            raise Unsupported("comprehension filter with a call (line %s)" % e.lineno)
         last = gens[-1].target.id
         elt = e.elt
         if not (isinstance(elt, ast.Name) and elt.id == last) and not (
@@ -899,6 +903,11 @@ class ExprMixin(ExecBase):
                 is_list = False
             if isinstance(el.ty, Opt) and isinstance(elt, ast.Attribute):
                 raise Unsupported("attribute of an optional comprehension variable (line %s)" % e.lineno)
+            for f in filters:
+                # `[x for x in xs if cond(x)]` (cond pure): exactly the members that satisfy cond, each of them present
+                # (the order of the result is not modelled)
+                guard = z3.And(guard, self.truthy(s, self.spec_eval(f, s, extra=env)))
+                is_list = False
             ev = self.spec_eval(elt, s, extra=env)
             if ev.ty == PYOBJ:
                 raise Unsupported("comprehension element %s (line %s)" % (ast.unparse(elt), e.lineno))
@@ -916,10 +925,14 @@ class ExprMixin(ExecBase):
                 # trigger: the domain element itself (`D[q][j]`, `x in S`), so that a goal about an element finds its index
                 pat = guard if z3.is_const(el.t) else el.t
                 fact = z3.Implies(guard, z3.And(T.intval(0).t <= ix, ix < ln, z3.Select(arr, ix) == ev.t))
-                if z3.is_app(pat) and not z3.is_and(pat):
-                    s.assume(z3.ForAll(bvs, fact, patterns=[pat]))
-                else:
-                    s.assume(z3.ForAll(bvs, fact))
+                try:
+                    if z3.is_app(pat) and not z3.is_and(pat):
+                        q = z3.ForAll(bvs, fact, patterns=[pat])
+                    else:
+                        q = z3.ForAll(bvs, fact)
+                except z3.Z3Exception:          # e.g. an if-then-else inside the would-be pattern
+                    q = z3.ForAll(bvs, fact)
+                s.assume(q)
                 k = z3.FreshConst(INT.sort(), "ck")
                 srcs = [z3.Function("comp_src%d_%d" % (n, i), INT.sort(), b.sort())(k) for i, b in enumerate(bvs)]
                 body = z3.substitute(z3.And(guard, z3.Select(arr, k) == ev.t), *zip(bvs, srcs))
